@@ -279,10 +279,17 @@ def evaluate(prop: Prop, cases: list[dict[str, Any]], workers: int) -> list[dict
         _worker_init(prop.id)
         impl_results = [_worker_run(c) for c in cases]
     else:
-        with ProcessPoolExecutor(
-            max_workers=workers, initializer=_worker_init, initargs=(prop.id,)
-        ) as ex:
-            impl_results = list(ex.map(_worker_run, cases, chunksize=max(1, len(cases) // (workers * 8))))
+        ex = ProcessPoolExecutor(max_workers=workers, initializer=_worker_init, initargs=(prop.id,))
+        try:
+            limit = float(os.environ.get("VERIF_CASES_TIMEOUT", "3000"))
+            impl_results = list(ex.map(_worker_run, cases, chunksize=max(1, len(cases) // (workers * 8)), timeout=limit))
+        except TimeoutError:
+            for p in list(getattr(ex, "_processes", {}).values()):
+                p.kill()
+            ex.shutdown(wait=False, cancel_futures=True)
+            raise Infra(f"the implementation runs did not finish within {limit} s (a case hangs in real time)")
+        finally:
+            ex.shutdown(wait=False, cancel_futures=True)
     records = []
     requests = []
     req_index = []
